@@ -269,9 +269,9 @@ theorem dnEncode_eq (v : DnVal) (oid : List Nat) (expected : Option IntLen) (p :
     cases expected with
     | none => simp [attrString] at h
     | some il =>
-      cases il <;> simp [attrString] at h <;> subst h <;> simp [op_eq, strOp]
-  | utf8 s => simp [attrString] at h; subst h; simp [op_eq, strOp]
-  | printable s => simp [attrString] at h; subst h; simp [op_eq, strOp]
+      cases il <;> simp [attrString] at h <;> subst h <;> simp [op_eq, strOp, dnValue]
+  | utf8 s => simp [attrString] at h; subst h; simp [op_eq, strOp, dnValue]
+  | printable s => simp [attrString] at h; subst h; simp [op_eq, strOp, dnValue]
 
 theorem dnLoop_eq (l : List Attr) (h : ∀ a ∈ l, a.WF) :
     dnLoop (l.map fun a => .ok { tag := some a.tag, value := .ok a.val }) = runM (l.flatMap attrOps) := by
@@ -282,7 +282,7 @@ theorem dnLoop_eq (l : List Attr) (h : ∀ a ∈ l, a.WF) :
     have hlt : a.tag - 1 ≤ DN_ENCODING.length := by
       have := (h a (by simp)).2.1
       simp [DN_ENCODING]; omega
-    simp only [List.map_cons, dnLoop, get_ok_bind, hlt, if_true, h1, List.flatMap_cons, attrOps, h2]
+    simp only [List.map_cons, dnLoop, dnItem, get_ok_bind, hlt, if_true, h1, List.flatMap_cons, attrOps, h2]
     rw [dnEncode_eq _ _ _ _ h2, ih (fun a ha => h a (by simp [ha]))]
     simp
 
@@ -307,17 +307,17 @@ theorem ekuLoop_eq (l : List Nat) (h : ∀ t ∈ l, 1 ≤ t ∧ t ≤ 6) :
     have ht := h t (by simp)
     have hlen : EKU_ENCODING.length = 7 := rfl
     have : t = 1 ∨ t = 2 ∨ t = 3 ∨ t = 4 ∨ t = 5 ∨ t = 6 := by omega
-    simp only [List.map_cons, ekuLoop, get_ok_bind, hlen, show t > 0 ∧ t < 7 by omega, if_true, List.flatMap_cons, ekuOps]
+    simp only [List.map_cons, ekuLoop, ekuItem, get_ok_bind, hlen, show t > 0 ∧ t < 7 by omega, if_true, List.flatMap_cons, ekuOps]
     rw [ih (fun x hx => h x (by simp [hx]))]
     rcases this with rfl | rfl | rfl | rfl | rfl | rfl <;> simp [EKU_ENCODING, op_eq]
 
 theorem extStart_eq (c : Bool) (oid : List Nat) : extStart c oid = runM (extStartOps c oid) := by
-  cases c <;> simp [extStart, extStartOps, op_eq]
+  cases c <;> simp [extStart, extStartOps, op_eq, opIf]
 
 theorem extEncode_eq (e : XExt) (h : e.WF) : extEncode e.lazy = runM (extOps e) := by
   cases e with
   | basic isCa path =>
-    cases isCa <;> cases path <;> simp [XExt.lazy, extEncode, extOps, extStart_eq, extEnd, op_eq]
+    cases isCa <;> cases path <;> simp [XExt.lazy, extEncode, extOps, extStart_eq, extEnd, op_eq, opIf, opPath]
   | keyUsage v => simp [XExt.lazy, extEncode, extOps, extStart_eq, extEnd, op_eq]
   | extKeyUsage l => simp [XExt.lazy, extEncode, extOps, extStart_eq, extEnd, op_eq, ekuLoop_eq l h]
   | subjKeyId b => simp [XExt.lazy, extEncode, extOps, extStart_eq, extEnd, op_eq]
@@ -340,8 +340,8 @@ theorem encode_eq (f : Fields) (h1 : f.signAlgo = 1) (h2 : f.pubkeyAlgo = 1) (h3
   simp only [encode, Fields.lazy, get_ok_bind, h1, h2, h3, enumOid, if_true, pure_bind', dnEncodeAll_eq _ hi,
     dnEncodeAll_eq _ hs, extEncodeAll, extLoop_eq _ he, op_eq, certOps]
   by_cases hz : f.notAfter = 0
-  · simp [hz]
-  · simp [hz]
+  · simp [hz, notAfterOps, op_eq]
+  · simp [hz, notAfterOps, op_eq]
 
 
 /-! ## the operations of `certOps` are those of the tree `certNode` -/
@@ -966,5 +966,290 @@ theorem cert_roundtrip (f : Fields) (n : Node) (buf : List Nat) (hn : certNode f
         omega
       simp [hz, this]
   · simp [Fields.view, i3, s3, x3, sa, pa, cu, bind, Option.bind, pure]
+
+
+/-! ## `as_asn1` never panics -/
+
+/-- the program keeps the writer invariant and never panics -/
+structure Safe {α : Type} (m : M α) : Prop where
+  prf : ∀ w, Der.Inv w → match m w with
+    | .ok (_, w') => Der.Inv w'
+    | .error e => e ≠ .w .panic
+
+theorem safe_op (o : Op) (h : o.argsOk) : Safe (op o) := by
+  constructor
+  intro w hw
+  have hp := hw.noPanic o.low (low_ne_panic o h)
+  simp only [op, hw.step_eq o]
+  cases hs : w.stepLow o.low with
+  | ok w' => exact hw.stepLow _ hs
+  | error e =>
+    rw [hs] at hp
+    simp only []
+    intro he
+    injection he with he
+    subst he
+    exact hp
+
+theorem safe_get {α : Type} (r : Except String α) : Safe (get r) := by
+  constructor
+  intro w hw
+  cases r with
+  | ok a => exact hw
+  | error e => simp [get]
+
+theorem safe_fail {α : Type} (e : Err) (h : e ≠ .panic) : Safe (fail e : M α) := by
+  constructor
+  intro w _
+  simp only [fail]
+  intro he; injection he with he; exact h he
+
+theorem safe_pure {α : Type} (a : α) : Safe (pure a : M α) := by
+  constructor
+  intro w hw; exact hw
+
+theorem safe_bind {α β : Type} (x : M α) (f : α → M β) (hx : Safe x) (hf : ∀ a, Safe (f a)) : Safe (x >>= f) := by
+  constructor
+  intro w hw
+  rw [bind_def]
+  have := hx.prf w hw
+  cases hxw : x w with
+  | error e => rw [hxw] at this; exact this
+  | ok p => obtain ⟨a, w'⟩ := p; rw [hxw] at this; exact (hf a).prf w' this
+
+macro "safe" : tactic => `(tactic| repeat' (first
+  | assumption
+  | apply safe_pure
+  | apply safe_get
+  | exact safe_fail _ (by decide)
+  | exact safe_op _ trivial
+  | apply safe_bind
+  | apply_assumption
+  | intro _
+  | split))
+
+theorem safe_dnValue (v : DnVal) (e : Option IntLen) : Safe (dnValue v e) := by
+  unfold dnValue; safe
+
+theorem safe_dnEncode (v : Except String DnVal) (oid : List Nat) (e : Option IntLen) : Safe (dnEncode v oid e) := by
+  have := safe_dnValue
+  unfold dnEncode; safe
+
+theorem safe_dnItem (dn : DnItem) (h : ∀ t, dn.tag = some t → t ≤ 22) : Safe (dnItem dn) := by
+  unfold dnItem
+  cases ht : dn.tag with
+  | none => exact safe_pure ()
+  | some tag =>
+    have hle := h tag ht
+    simp only []
+    split
+    · have : DN_ENCODING.length = 22 := rfl
+      cases hd : DN_ENCODING[tag - 1]? with
+      | some p => obtain ⟨oid, e⟩ := p; exact safe_dnEncode _ _ _
+      | none =>
+        have : tag - 1 < DN_ENCODING.length := by omega
+        simp [List.getElem?_eq_none_iff] at hd
+        omega
+    · exact safe_pure ()
+
+theorem safe_get_bind {α β : Type} (r : Except String α) (f : α → M β) (h : ∀ a, r = .ok a → Safe (f a)) :
+    Safe (get r >>= f) := by
+  cases r with
+  | ok a => rw [get_ok_bind]; exact h a rfl
+  | error e =>
+    constructor
+    intro w _
+    rw [bind_def]
+    simp [get]
+
+theorem safe_dnLoop (l : List (Except String DnItem))
+    (h : ∀ d t, .ok d ∈ l → d.tag = some t → t ≤ 22) : Safe (dnLoop l) := by
+  induction l with
+  | nil => exact safe_pure ()
+  | cons it r ih =>
+    have ih' := ih (fun d t hd ht => h d t (by simp [hd]) ht)
+    unfold dnLoop
+    apply safe_get_bind
+    intro dn hdn
+    subst hdn
+    exact safe_bind _ _ (safe_dnItem dn (fun t ht => h dn t (by simp) ht)) (fun _ => ih')
+
+theorem safe_dnEncodeAll (l : List (Except String DnItem))
+    (h : ∀ d t, .ok d ∈ l → d.tag = some t → t ≤ 22) : Safe (dnEncodeAll l) := by
+  have := safe_dnLoop l h
+  unfold dnEncodeAll; safe
+
+theorem safe_ekuItem (t : Nat) : Safe (ekuItem t) := by
+  unfold ekuItem
+  split
+  · rename_i h
+    cases hd : EKU_ENCODING[t]? with
+    | some oid => exact safe_op _ trivial
+    | none => simp at hd; omega
+  · exact safe_pure ()
+
+theorem safe_ekuLoop (l : List (Except String Nat)) : Safe (ekuLoop l) := by
+  induction l with
+  | nil => exact safe_pure ()
+  | cons it r ih =>
+    have := safe_ekuItem
+    unfold ekuLoop; safe
+
+theorem safe_opIf (c : Bool) (o : Op) (h : o.argsOk) : Safe (opIf c o) := by
+  unfold opIf; split
+  · exact safe_op o h
+  · exact safe_pure ()
+
+theorem safe_opPath (p : Option Nat) : Safe (opPath p) := by
+  unfold opPath; safe
+
+theorem safe_extStart (c : Bool) (oid : List Nat) : Safe (extStart c oid) := by
+  have := safe_opIf c (.bool true) trivial
+  unfold extStart; safe
+
+theorem safe_extEnd : Safe extEnd := by
+  unfold extEnd; safe
+
+theorem safe_extEncode (e : Ext) : Safe (extEncode e) := by
+  have h1 := safe_extStart
+  have h2 := safe_extEnd
+  have h3 := safe_opPath
+  have h4 := safe_ekuLoop
+  cases e with
+  | basic isCa path =>
+    have := safe_opIf isCa (.bool true) trivial
+    unfold extEncode; safe
+  | keyUsage v => unfold extEncode; safe
+  | extKeyUsage l => unfold extEncode; safe
+  | subjKeyId b => unfold extEncode; safe
+  | authKeyId b => unfold extEncode; safe
+  | future b => unfold extEncode; safe
+
+theorem safe_extLoop (l : List (Except String Ext)) : Safe (extLoop l) := by
+  induction l with
+  | nil => exact safe_pure ()
+  | cons it r ih =>
+    have := safe_extEncode
+    unfold extLoop; safe
+
+theorem safe_extEncodeAll (l : List (Except String Ext)) : Safe (extEncodeAll l) := by
+  have := safe_extLoop l
+  unfold extEncodeAll; safe
+
+theorem safe_enumOid (v : Nat) (oid : List Nat) : Safe (enumOid v oid) := by
+  unfold enumOid; safe
+
+/-- the declared bounds of the accessor results: attribute tags are `DNTag` values, the validity instants `u32` -/
+structure Cert.Bounds (c : Cert) : Prop where
+  issuer : ∀ l d t, c.issuer = .ok l → .ok d ∈ l → d.tag = some t → t ≤ 22
+  subject : ∀ l d t, c.subject = .ok l → .ok d ∈ l → d.tag = some t → t ≤ 22
+  nb : ∀ v, c.notBefore = .ok v → v < 4294967296
+  na : ∀ v, c.notAfter = .ok v → v < 4294967296
+
+theorem safe_utctime (e : Nat) (h : e < 4294967296 ∨ e = DOESNT_EXPIRE) : Safe (op (.utctime e)) := by
+  apply safe_op
+  simp only [Op.argsOk]
+  have h1 : MATTER_EPOCH_SECS = 946684800 := rfl
+  have h2 : MAX_UNIX = 253402300799 := rfl
+  have h3 : DOESNT_EXPIRE = 252455615999 := rfl
+  omega
+
+theorem safe_notAfterOps (c : Cert) (hb : c.Bounds) (na : Nat) : Safe (notAfterOps c na) := by
+  unfold notAfterOps
+  split
+  · exact safe_utctime _ (Or.inr rfl)
+  · apply safe_get_bind
+    intro v hv
+    exact safe_utctime _ (Or.inl (hb.na v hv))
+
+theorem safe_encode (c : Cert) (hb : c.Bounds) : Safe (encode c) := by
+  unfold encode
+  repeat' (first
+    | exact safe_op _ trivial
+    | exact safe_enumOid _ _
+    | exact safe_extEncodeAll _
+    | exact safe_notAfterOps c hb _
+    | (apply safe_get_bind; intro _ _)
+    | apply safe_bind
+    | intro _)
+  all_goals first
+    | exact safe_dnLoop _ (fun d t hd ht => hb.issuer _ d t (by assumption) hd ht)
+    | exact safe_dnLoop _ (fun d t hd ht => hb.subject _ d t (by assumption) hd ht)
+    | exact safe_utctime _ (Or.inl (hb.nb _ (by assumption)))
+
+/-- **`as_asn1` never panics**, whatever the accessors return (readable or not), for every buffer -/
+theorem asAsn1_noPanic (c : Cert) (hb : c.Bounds) (buf : List Nat) : asAsn1 c buf ≠ .error (.w .panic) := by
+  have := (safe_encode c hb).prf (W.new buf) (Inv.new buf)
+  unfold asAsn1
+  cases he : encode c (W.new buf) with
+  | error e => rw [he] at this; simp only []; intro h; injection h with h; exact this h
+  | ok p =>
+    obtain ⟨_, w⟩ := p
+    rw [he] at this
+    simp only [W.asSlice, RBuf.slice, Nat.zero_le, true_and, this.off, if_true]
+    intro h; cases h
+
+
+
+/-! ## every certificate within the declared bounds -/
+theorem mapO_some_of {α β : Type} (f : α → Option β) (l : List α) (h : ∀ a ∈ l, (f a).isSome = true) :
+    ∃ bs, mapO f l = some bs := by
+  induction l with
+  | nil => exact ⟨[], rfl⟩
+  | cons a r ih =>
+    obtain ⟨bs, hb⟩ := ih (fun x hx => h x (by simp [hx]))
+    have := h a (by simp)
+    cases ha : f a with
+    | none => simp [ha] at this
+    | some b => exact ⟨b :: bs, by simp [mapO, ha, hb]⟩
+
+theorem dnNode_some (l : List Attr) (h : ∀ a ∈ l, a.WF) : ∃ n, dnNode l = some n := by
+  obtain ⟨ns, hn⟩ := mapO_some_of attrNode l (by
+    intro a ha
+    obtain ⟨oid, e, p, h1, h2⟩ := attr_string_some a (h a ha)
+    simp [attrNode, h1, h2])
+  exact ⟨seq ns, by simp [dnNode, hn]⟩
+
+theorem timeNode_some (e : Nat) (h : MATTER_EPOCH_SECS + e ≤ MAX_UNIX) : ∃ n, timeNode e = some n := by
+  obtain ⟨tag, s, h1, _⟩ := parseTime_timeStr e h
+  exact ⟨.prim tag s, by simp [timeNode, h1]⟩
+
+/-- a certificate within the declared bounds: readable fields with the algorithm identifiers Matter defines,
+`u32` validity instants, attribute tags 1..22 (integers only under the Matter attributes), extension values in
+range, `future-extensions` blobs that are one DER extension with an OID the converter does not know -/
+structure Fields.Legal (f : Fields) : Prop where
+  sa : f.signAlgo = 1
+  pa : f.pubkeyAlgo = 1
+  curve : f.ecCurveId = 1
+  nb : f.notBefore < 4294967296
+  na : f.notAfter < 4294967296
+  wf : f.WF
+
+theorem certNode_some (f : Fields) (h : f.Legal) : ∃ n, certNode f = some n := by
+  obtain ⟨sa, pa, cu, nb, na, hi, hs, he⟩ := h
+  obtain ⟨i, hi'⟩ := dnNode_some f.issuer hi
+  obtain ⟨s, hs'⟩ := dnNode_some f.subject hs
+  have h1 : MATTER_EPOCH_SECS = 946684800 := rfl
+  have h2 : MAX_UNIX = 253402300799 := rfl
+  have h3 : DOESNT_EXPIRE = 252455615999 := rfl
+  obtain ⟨b, hb'⟩ := timeNode_some f.notBefore (by omega)
+  obtain ⟨a, ha'⟩ := timeNode_some (if f.notAfter = 0 then DOESNT_EXPIRE else f.notAfter) (by split <;> omega)
+  simp [certNode, enumOid', sa, pa, cu, hi', hs', hb', ha', bind, Option.bind, pure]
+
+/-- **Certificate round trip, all certificates within the declared bounds**: `as_asn1` into any buffer with enough
+room (`need`; buffers below 64 KiB) succeeds, its DER parses (definite minimal lengths) and the fields read back
+from it are exactly the certificate's fields -/
+theorem cert_roundtrip_legal (f : Fields) (h : f.Legal) :
+    ∃ n, certNode f = some n ∧ ∀ buf : List Nat, n.need ≤ buf.length → buf.length < 65536 →
+      ∃ der d v, asAsn1 f.lazy buf = .ok der ∧ der = n.enc ∧ parseDer der = some d ∧
+        certFieldsOfDer d = some v ∧ f.view = some v := by
+  obtain ⟨n, hn⟩ := certNode_some f h
+  refine ⟨n, hn, fun buf hfit hsmall => ?_⟩
+  have hl := lenOk_of_need n (by omega)
+  obtain ⟨der, d, v, h1, h2, h3, h4⟩ := cert_roundtrip f n buf hn ⟨h.wf, h.na⟩ hl hfit
+  have := asAsn1_ok f n buf hn h.wf hl hfit
+  rw [this] at h1
+  injection h1 with h1
+  exact ⟨der, d, v, by rw [this, h1], h1.symm, h2, h3, h4⟩
 
 end Codec.CertAsn1
